@@ -241,7 +241,10 @@ def _worker(chunk):
     harness.quiet()
     scratch = harness.enter_scratch()
     st = {"n": 0, "viol": [], "outcomes": {"ok": 0, "reject": 0}, "distinct": set(), "sample": None}
-    for case in chunk:
+    flat: List[dict] = []
+    for item in chunk:
+        flat.extend(item if isinstance(item, list) else [item])
+    for case in flat:
         exp = expected(case)
         st["n"] += 1
         st["outcomes"][exp[0]] += 1
@@ -260,8 +263,30 @@ def _worker(chunk):
     return st
 
 
+def history_groups(tier: str) -> List[List[dict]]:
+    """Ordered pairs of sweeps executed back to back in ONE process (each still judged against the reference):
+    every ordered pair of single-variable domains, for each wrapped kind — state carried from one sweep to the next
+    (caches keyed too coarsely, class-level leftovers) shows up as a wrong second result."""
+    out: List[List[dict]] = []
+    doms = ["lin3", "lin3_noend", "lin1", "log3", "log3_noend", "seq2", "seq3", "list2", "list3", "fromctx2"]
+    kinds = list(KIND) if tier == "thorough" else ["op", "src", "probe"]
+    for ki, kind in enumerate(kinds):
+        k = KIND[kind]
+        for i, d1 in enumerate(doms):
+            for j, d2 in enumerate(doms):
+                if d1 == d2 or (tier == "quick" and (i + j + ki) % 3 != 0 and {d1, d2} != {"lin3", "lin3_noend"} and {d1, d2} != {"log3", "log3_noend"}):
+                    continue
+                pair = []
+                for d, mode in ((d1, "combinatorial"), (d2, "by_position")):
+                    ctx = {"r": list(R_VALUE)} if d == "fromctx2" else {}
+                    pair.append({"kind": kind, "vars": [("t", DOM[d])], "exprs": {k["swept"]: "t"}, "mode": mode, "broadcast": False,
+                                 "node_params": {}, "ctx": ctx, "surround": "alone"})
+                out.append(pair)
+    return out
+
+
 def check(tier: str, seed: int) -> Result:
-    cs = core.seeded_order(cases(tier), seed)
+    cs = core.seeded_order(cases(tier) + history_groups(tier), seed)
     tot = 0
     outcomes = {"ok": 0, "reject": 0}
     distinct = set()
